@@ -41,6 +41,7 @@ VK_MAIN()
         for (int s = 0; s < VK_NS; s++) {
                 samples[s] = s;
                 m->sequences[s]->len = LEN[s];
+                m->sequences[s]->rank = vin.i[s];   /* the caller's input position: must not influence distances (C03) */
                 for (int k = 0; k < LMAXX; k++) { uint8_t c = vin.b[vb++]; VK_ASSUME(c < 13); if (k < LEN[s]) m->sequences[s]->s[k] = c; }
         }
         float **dm = d_estimation(m, samples, VK_NS, 1);
